@@ -364,6 +364,25 @@ impl Default for JuraV1 {
     }
 }
 
+#[cfg(feature = "verif")]
+impl JuraV1 {
+    /// Read-only copy of (resting book as (id, order, attempted_execution), pending buffer,
+    /// next order id, fill log).
+    #[allow(clippy::type_complexity)]
+    pub fn verif_snapshot(&self) -> (Vec<(u64, Order, bool)>, Vec<Order>, u64, Vec<Fill>) {
+        (
+            self.orderbook
+                .inner
+                .iter()
+                .map(|o| (o.order_id, o.order.clone(), o.attempted_execution))
+                .collect(),
+            self.order_buffer.clone(),
+            self.orderbook.last_inserted,
+            self.trade_log.clone(),
+        )
+    }
+}
+
 /// OrderBook is an implementation of the Hyperliquid API running against a local server. This allows
 /// testing of strategies using the same API/order types/etc.
 ///
